@@ -64,11 +64,12 @@ def run_check(pid, tier, replay=None):
         ctx.driver.available = False
     else:
         ctx.driver.available = C.DRIVER.exists()
-    rc, out = C.lake_build([prop.LEAN_MODULE])
+    mods = C.prop_modules(prop)
+    rc, out = C.lake_build(mods)
     proofs_ok = rc == 0
     if not proofs_ok:
         errs = [l for l in out.splitlines() if l.startswith('error:')]
-        ctx.broken.append(f'proof obligation(s) in {prop.LEAN_MODULE} no longer check: ' + ' | '.join(errs)[:1500])
+        ctx.broken.append(f'proof obligation(s) in {" ".join(mods)} no longer check: ' + ' | '.join(errs)[:1500])
 
     # 3. audits
     hits = C.textual_audit()
@@ -77,15 +78,15 @@ def run_check(pid, tier, replay=None):
     axioms = {}
     discharged = 0
     if proofs_ok:
-        axioms, probs = C.axiom_audit(prop.LEAN_MODULE, prop.THEOREMS)
+        axioms, probs = C.axiom_audit(prop.LEAN_MODULE, prop.THEOREMS, extra_modules=mods[1:])
         for p in probs:
             ctx.broken.append(f'axiom audit: {p}')
         discharged = sum(1 for t in prop.THEOREMS if t in axioms and all(a in C.ALLOWED_AXIOMS for a in axioms[t]))
         if tier == 'thorough':
             with C.LakeLock():
-                rc, out = C.sh(['lake', 'env', 'leanchecker', prop.LEAN_MODULE], cwd=C.LEAN, timeout=3000)
+                rc, out = C.sh(['lake', 'env', 'leanchecker', *mods], cwd=C.LEAN, timeout=3000)
             if rc != 0:
-                ctx.broken.append('leanchecker rejected ' + prop.LEAN_MODULE + ': ' + out[-500:])
+                ctx.broken.append('leanchecker rejected ' + ' '.join(mods) + ': ' + out[-500:])
             else:
                 ctx.notes.append('leanchecker ok')
 
